@@ -795,6 +795,32 @@ def c06_job_inner(job, box=None):
         judge(D, V, order, counters, what)
     out["stats"]["D_runs"] = len(Dsets)
 
+    # the same with ONE rule list object that has already been checked: configure it again with c ∖ D (the call
+    # apply_rules uses to layer configuration sections), clear, check again — nothing remembered from the first
+    # run may decide which rules the second run analyses
+    Dre = next((D for _, D in Dsets if D and len(D) < len(analysed)), None)
+    if Dre:
+        pristine()
+        rlr = vrule_list.rule_list(o, oc.severity_list)
+        rlr.configure(oc)
+        rlr.check_rules(bAllPhases=True)
+        if report_of(rlr) != V0:
+            fail("rule_list.check_rules", "repeatDiffers", "a second rule list on the pristine state reports differently: %s" % describe_change(V0, report_of(rlr), sorted(set(V0) | set(report_of(rlr)))[:3]))
+        pristine()
+        ocD = disabled_config(oc, Dre)
+        rlr.configure(ocD)
+        rlr.clear_violations()
+        rlr.check_rules(bAllPhases=True)
+        Vr = report_of(rlr)
+        out["runs"] += 2
+        expected = {r: v for r, v in V0.items() if r not in set(Dre)}
+        # judged here: a rule of D that still reports (what the first run remembered decides what the second analyses);
+        # differences at rules outside D are the interference the fresh-list runs above judge
+        bad = [r for r in sorted(Dre) if Vr.get(r)]
+        if bad:
+            fail("rule_list.check_rules", "reconfiguredRuleListRemembers", "rule list checked, configured again with %d rule(s) disabled, cleared and checked again: %d of them still report, e.g. %s" % (len(Dre), len(bad), bad[:3]), D=sorted(Dre))
+        out["stats"]["reconfigure_runs"] = out["stats"].get("reconfigure_runs", 0) + 1
+
     # every analysed rule on its own (D = all the others), directly through Rule.analyze
     pristine()
     rlS = vsgrun.new_rule_list(o, oc)
